@@ -9,14 +9,18 @@ META = {
     "technique": "TLC model checking of Framing.tla (the iterator's three-mode resynchronisation machine over both parse functions "
                  "on a scaled token grammar; every stream of one framing with marker-free garbage within the bounds; safety + "
                  "termination) + every TLC-enumerated stream shape concretised into real bytes (all 32 WEID/WSID/WTMS/UEH x MSBF header "
-                 "shapes round robin, payload 0/1/random/maximal, random ids/counters/garbage, random start index), seeded random "
+                 "shapes round robin, payload 0/1/random/maximal, random ids/counters/garbage, random start index), a deterministic grid "
+                 "of scale classes the token model abstracts away (one garbage run of 65551/65552/65553/131072/200000 bytes leading, "
+                 "between, in front of the last message or trailing x both framings x random bytes or partial frame markers at the "
+                 "64 KiB / 65551 / 128 KiB boundaries x every front-end), seeded random "
                  "streams and the repository's .dlt files run through the real DltMessageIterator (over slice, Cursor and "
                  "LowMarkBufReader), every recorded run validated by TLC against the contract FramingTrace.tla whose header carries "
                  "the generator's ground truth",
     "design_ref": "DESIGN.md section 6, C01",
     "level_text": "Exhaustive within bounds on the model (all segment sequences <= 4(5) segments / 9(12) tokens, both framings, with and "
                   "without the proposed repair), every such shape executed on the real code (2 concretisations each) with the contract "
-                  "evaluated by TLC at every next(); random streams extend to 60(200) messages with payloads up to the 65535-byte limit.",
+                  "evaluated by TLC at every next(); random streams extend to 60(200) messages with payloads up to the 65535-byte limit and garbage runs up to 200000 bytes; "
+                  "garbage-run lengths beyond the maximal message size are sampled at the listed scale classes only.",
     "level_note": "Trusted: TLC, the byte-level message generator of the driver (independent of adlt's writer) and its projection of "
                   "DltMessage fields. Narrowed: fields a framing does not carry are not compared (serial: reception time, ECU without "
                   "WEID); the session id is not observable in DltMessage; storage-header microseconds < 10^6; a stream without any "
@@ -78,7 +82,7 @@ def check(ctx):
     nrand = 800 if quick else 8000
     info = drive(binp, ["--scenarios", scn, "--variants", "2" if quick else "4", "--max-l", "2" if quick else "3", "--random", str(nrand),
                         "--max-msgs", "60" if quick else "200", "--seed", str(ctx.seed), "--files", os.path.join(c.REPO, "tests"),
-                        "--file-msgs", "300" if quick else "3000"], trace)
+                        "--file-msgs", "300" if quick else "3000", "--scale", "1" if quick else "2"], trace)
     # (e) TLC validates every recorded run against the contract
     v = c.validate_trace(ctx, "framing", "FramingTrace.tla", trace, sw, timeout=6000, xmx="8g")
     ctx.add_tlc("trace-validation", v.res)
@@ -134,6 +138,7 @@ def check(ctx):
             key = evs[0]["hdr"]["framing"] + "." + e["ev"]
             kinds[key] = kinds.get(key, 0) + 1
     ctx.extra["trace_events_by_kind"] = kinds
+    ctx.extra["long_garbage_cases"] = info["long_garbage"]
     ctx.extra["repository_files"] = info["files"]
     ctx.extra["trace_events"] = info["lines"]
     if ctx.violations:
@@ -143,6 +148,10 @@ def check(ctx):
     for need in ("garbage_before", "garbage_between", "garbage_after", "trailing_short_run", "max_payload_msgs", "empty_payload_msgs"):
         if info[need] == 0 and not ctx.violations:
             raise c.ToolError("vacuity: path %s never exercised" % need)
+    if not ctx.violations:
+        for need, n in info["long_garbage"].items():
+            if n == 0:
+                raise c.ToolError("vacuity: scale class %s (garbage run longer than the maximal message) never exercised" % need)
     if not any(f.get("used") for f in info["files"]):
         ctx.assumptions.append("no repository .dlt file could be used (none is a plain concatenation of storage-framed messages)")
     ks = list(cases)
